@@ -351,11 +351,47 @@ fn trace(ops: &[String], alt: Option<(u32, u32)>, scratch: &mut Out) -> Vec<(Str
     let mut ex = Exec::new(Oracles { prefix: false, c17: false });
     let mut isn = [0u32, 0u32];
     let mut recs = vec![];
+    // how far each side's space moves (a side that never opens or listens does not move unless
+    // the alternative pair says so: its "ISN" counts as 0)
+    let mut orig = [0u32, 0u32];
+    let mut seen = [false, false];
+    for l in ops {
+        if let Some((x, v)) = isn_of_line(l) {
+            if !seen[x as usize] {
+                seen[x as usize] = true;
+                orig[x as usize] = v;
+            }
+        }
+    }
+    let delta = match alt {
+        Some((a, b)) => [a.wrapping_sub(orig[0]), b.wrapping_sub(orig[1])],
+        None => [0, 0],
+    };
+    isn = match alt {
+        Some((a, b)) => [a, b],
+        None => orig,
+    };
     for l in ops {
         if l.starts_with("case ") || l.starts_with("alt ") {
             continue;
         }
         let mut line = l.clone();
+        {
+            // a forged segment addressed to x: SEQ lives in the peer's space, ACK (if the bit is
+            // set) in x's
+            let w: Vec<&str> = l.split_whitespace().collect();
+            if w.len() >= 6 && (w[0] == "inject" || w[0] == "injecthex") {
+                let x = if w[1] == "A" { SideId::A } else { SideId::B };
+                if let (Ok(ctl), Ok(seq), Ok(ack)) = (w[2].parse::<u64>(), w[3].parse::<u64>(), w[4].parse::<u64>()) {
+                    let seq2 = (seq as u32).wrapping_add(delta[x.peer() as usize]);
+                    let ack2 = if ctl & 16 != 0 { (ack as u32).wrapping_add(delta[x as usize]) } else { ack as u32 };
+                    let mut v: Vec<String> = w.iter().map(|s| s.to_string()).collect();
+                    v[3] = seq2.to_string();
+                    v[4] = ack2.to_string();
+                    line = v.join(" ");
+                }
+            }
+        }
         if let Some((x, v)) = isn_of_line(l) {
             let v2 = match alt {
                 Some((a, b)) => {
@@ -409,7 +445,7 @@ fn pick_alt(rng: &mut Rng, span: u64) -> u32 {
 }
 
 /// compare the two executions; on a difference report an oracle failure
-fn compare(ops: &[String], alt: (u32, u32), scratch: &mut Out, out: &mut Out) {
+fn compare(ops: &[String], alt: (u32, u32), scratch: &mut Out, out: &mut Out, probe: Option<&str>) {
     let t1 = trace(ops, None, scratch);
     let t2 = trace(ops, Some(alt), scratch);
     let lines: Vec<&String> = ops.iter().filter(|l| !l.starts_with("case ") && !l.starts_with("alt ")).collect();
@@ -438,12 +474,46 @@ fn compare(ops: &[String], alt: (u32, u32), scratch: &mut Out, out: &mut Out) {
                     a.chars().take(700).collect::<String>(),
                     b.chars().take(700).collect::<String>()
                 ),
-                &format!("isn-dependent {} of {}", kind, op),
+                &match probe {
+                    Some(p) => format!("isn-dependent {}", p),
+                    None => format!("isn-dependent {} of {}", kind, op),
+                },
             );
             return;
         }
     }
     out.count("run.identical");
+}
+
+/// scripted witnesses of the places where `tcb.rs` holds an ABSOLUTE number (notes/C12.md).
+/// F-C12-2: `SND.WL2` is copied from the ACK field of a SYN without ACK bit (0 from an Elvis
+/// peer) and stays so when the connection leaves SYN-RECEIVED through `close()`; the window-update
+/// test `SND.WL1 == SEG.SEQ && SND.WL2 <= SEG.ACK` then compares real ACK numbers with it.
+fn probes(first_case: u64, scratch: &mut Out, out: &mut Out) {
+    let scripts: [(&str, (u32, u32), &[&str]); 2] = [
+        (
+            "wl2 close-in-syn-received",
+            ((P31 + 100) as u32, 0),
+            &["open A 100 1500", "inject A 2 5000 0 65535 0 0", "close A", "inject A 18 5000 101 1234 0 0"],
+        ),
+        (
+            "wl2 fin-in-syn-received",
+            ((P31 + 100) as u32, 0),
+            &["open A 100 1500", "inject A 2 5000 0 65535 0 0", "inject A 1 5001 0 65535 0 0", "inject A 18 5000 101 1234 0 0"],
+        ),
+    ];
+    for (k, (name, alt, lines)) in scripts.iter().enumerate() {
+        let mut ex = Exec::new(Oracles { prefix: false, c17: false });
+        out.begin_case(first_case + k as u64);
+        for l in lines.iter() {
+            ex.apply(l, out);
+        }
+        out.line(&format!("alt {} {}", alt.0, alt.1), "alt");
+        out.count("run.probes");
+        let ops = out.current_ops();
+        compare(&ops, *alt, scratch, out, Some(name));
+        out.end_case();
+    }
 }
 
 fn run_runs(args: &Args) {
@@ -475,8 +545,9 @@ fn run_runs(args: &Args) {
         if alts.is_empty() {
             alts.push((u32::MAX, (P31 - 1) as u32));
         }
+        let probe = ops.iter().find_map(|l| l.strip_prefix("# probe ").map(|s| s.to_string()));
         for a in alts {
-            compare(&ops, a, &mut scratch, &mut out);
+            compare(&ops, a, &mut scratch, &mut out, probe.as_deref());
         }
         out.end_case();
         out.finish(RULE_RUN);
@@ -506,10 +577,11 @@ fn run_runs(args: &Args) {
                     out.count("run.crosses_2^31_during_connection");
                 }
             }
-            compare(&ops, alt, &mut scratch, &mut out);
+            compare(&ops, alt, &mut scratch, &mut out, None);
         }
         out.end_case();
     }
+    probes(args.cases, &mut scratch, &mut out);
     out.finish(RULE_RUN);
 }
 
